@@ -2,12 +2,12 @@ SPECIFICATION Spec
 CONSTANTS
   Tables <- MCTables
   TokText <- MCTokText
-  TokSets <- TokFull
-  MaxArgs = 2
+  TokSets <- TokHistQ
+  MaxArgs = 3
   Flags0 <- MCFlags0
   Int0 <- MCInt0
-  TableSet <- TS12
-  Histories <- HistCanon
+  TableSet <- TS1
+  Histories <- Hist3
   Argvs <- ArgvsBounded
   Emit <- EmitJson
 INVARIANTS TypeOK ReadingIsFunction RankBounded ForeignBitsKept PrePassOnlyPre NoPrePassNoPre IntFromLine NonOptionsUntouchedInOrder ArgvCompacted CompactPrefix ArgvShrunk
